@@ -132,6 +132,8 @@ def run_lines(binary, lines, shards=1, timeout=3000, env=None):
     out = {}
     if shards <= 1:
         rc, o, e = sh([binary], inp='\n'.join(lines) + '\n', timeout=timeout, env=env)
+        if rc < 0:          # killed by a signal (not an answer of the runner): once more
+            rc, o, e = sh([binary], inp='\n'.join(lines) + '\n', timeout=timeout, env=env)
         if rc != 0:
             raise BuildError(f'runner {binary} exited {rc}', (e or o)[-3000:])
         outs = [o]
@@ -157,7 +159,9 @@ def run_lines(binary, lines, shards=1, timeout=3000, env=None):
         for t in ths:
             t.join()
         outs = []
-        for rc, o, e in results:
+        for ix, (rc, o, e) in enumerate(results):
+            if rc < 0:      # this shard was killed by a signal (not an answer of the runner): once more
+                rc, o, e = sh([binary], inp='\n'.join(procs[ix][1]) + '\n', timeout=timeout, env=env)
             if rc != 0:
                 raise BuildError(f'runner {binary} exited {rc}', (e or o)[-3000:])
             outs.append(o)
